@@ -259,10 +259,15 @@ def post_slice(loc):
     return ns["_post"], names, len(post)
 
 
-def postloop_obligations(chk, with_validation, prune, restore, MAXIT, PAT, WI):
+def postloop_obligations(chk, with_validation, prune, restore, MAXIT, PAT, WI, auto_off=False):
     import copy
-    tag = f"val={'yes' if with_validation else 'none'},prune={prune},restore={restore},iter={WI}"
-    loc, cap = capture((lambda m: small_models(seed=1)) if with_validation else None, MAXIT, PAT, prune_history=prune, restore_best_position=restore)
+    tag = f"val={'yes' if with_validation else 'none'},prune={prune},restore={restore},iter={WI}" + (",model with auto_update=False" if auto_off else "")
+    mdl = None
+    if auto_off:
+        # the user's model defers updates (public setting): the returned model state still has to be coherent with the returned position
+        mdl = small_models()
+        mdl.auto_update = False
+    loc, cap = capture((lambda m: small_models(seed=1)) if with_validation else None, MAXIT, PAT, model=mdl, prune_history=prune, restore_best_position=restore)
     post, names, nst = post_slice(loc)
     stopper_obj = loc["stopper"]
     patience_in_loop = stopper_obj.patience
@@ -602,6 +607,10 @@ def main():
             o, enc = postloop_obligations(chk, v, p, r, MAXIT, PAT, WI)
             obs += o
             chk.validated_points += enc.validate(chk.rng, npoints=1)
+    for (v, p, r) in [(True, False, True)] if chk.tier == "quick" else [(True, False, True), (False, True, False)]:
+        o, enc = postloop_obligations(chk, v, p, r, MAXIT, PAT, wis[0], auto_off=True)
+        obs += o
+        chk.validated_points += enc.validate(chk.rng, npoints=1)
     chk.functions += ["liesel.goose.optim.optim_flat (pre-loop part executed, statements after the while_loop sliced from the source and traced)"]
     rv = chk.guarded("loop-body:validation-loss:trace", "tracing one loop iteration with a validation model", validation_loss_obligation, chk)
     if rv:
